@@ -188,9 +188,12 @@ def prepare_affine(
     pads: list[tuple[int, ...]] = []
     new_center: list[float] = []
     need_pad = False
+    # NOTE: nearest-neighbor interpolation (order=0) reads the voxel next to the last sampled
+    # coordinate when the coordinate is rounded up.
+    margin = 1 if order == 0 else 0
     for c, s, s0 in zip(center, output_shape, img.shape):
         x0 = int(c - s / 2 - order)
-        x1 = int(x0 + s + 2 * order + 1)
+        x1 = int(x0 + s + 2 * order + 1) + margin
         _sl, _pad, _need_pad = make_slice_and_pad(x0, x1, s0)
         slices.append(_sl)
         pads.append(_pad)
@@ -220,9 +223,11 @@ def prepare_affine_cornersafe(
     pads: list[tuple[int, ...]] = []
     new_center: list[float] = []
     need_pad = False
+    # NOTE: see prepare_affine
+    margin = 1 if order == 0 else 0
     for c, s0 in zip(center, img.shape):
         x0 = int(c - half_len - order)
-        x1 = int(x0 + max_len + 2 * order + 1)
+        x1 = int(x0 + max_len + 2 * order + 1) + margin
         _sl, _pad, _need_pad = make_slice_and_pad(x0, x1, s0)
         slices.append(_sl)
         pads.append(_pad)
